@@ -68,13 +68,36 @@ assumes the peer produces a reply exactly for the requests whose caller reads on
 State: per caller a program counter, the lock holder, the two directions of the socket as FIFO
 queues (`reqQ`: requests written and not yet processed by the peer; `repQ`: replies written by the
 peer and not yet consumed, each tagged with the caller whose request it answers), what each caller
-consumed, and the ghost history `trace` over the Spec alphabet.  Labels: `acquire i`, `send i`,
+consumed (`got`), which callers ended in an error (`err`), whether the peer has closed the socket
+(`closed`), and the ghost history `trace` over the Spec alphabet.  Labels: `acquire i`, `send i`,
 `peer` (the peer processes the oldest request and, if a reply is owed, appends it to `repQ`),
 `recv i`, `release i`.  `step` returns `none` when a label is not enabled (acquire while the lock is
 held — a blocked thread; `recv` before the peer has answered — a blocked read).
 
 One call per caller: a thread making k calls in a row is k callers whose schedules are a subset of
 the schedules quantified over here.
+
+## Reply faults (error paths of the reply readers)
+
+`Cfg.fault i` says what the peer does with the request of caller `i` when that request has a reply:
+`none` — the correct reply; `bad` — a reply of the right size that the reader refuses (`is_reply_for`
+fails: other request code / REPLY flag missing; an unexpected descriptor; an invalid body);
+`close` — the peer closes the socket instead of answering (the reader gets end-of-file).  In all
+three reply readers (`FrontendInternal::recv_reply*` / `wait_for_ack`, `BackendInternal::wait_for_ack`
+of `backend_req.rs`, `BackendInternal::recv_reply` of `gpu_backend_req.rs`) the refusal is an early
+`return Err(..)` / `?` *inside the helper*: the helper has consumed the whole fixed-size reply (one
+`recv_body`), the method returns the error and its guard is dropped at the end of the method as on
+the success path.  So `recv i` with a faulty reply consumes the reply, records `err i` instead of a
+value and goes to the same program counter `got`, from which `release i` is the next step.
+After a `close` every later `send_*` fails (`EPIPE`; `?` returns with the guard dropped): a caller
+that finds the socket closed goes `acquire · release` with an error and writes nothing — the same
+steps as a locally rejected call.  `release` from `locked` (local rejection or dead socket) records
+`err i` as well.
+
+`Cfg.relock` is a *mutation* of that rule, not the code: the error path of the reply reader takes
+the endpoint lock again (`self.set_failed(..)` = `self.node.lock()` while the method's guard is
+alive) — program counter `relock`, whose only continuation is an `acquire` that needs the lock to be
+free.  `Props.C10.relock_on_error_deadlocks` shows that this step is never enabled.
 -/
 
 namespace Model.Locks
@@ -88,10 +111,21 @@ inductive Kind where
   | rejected   -- refused by a local check after taking the lock: nothing is sent
 deriving DecidableEq, Repr
 
+/-- What the peer does with a request that has a reply. -/
+inductive Fault where
+  | none       -- answers with the correct reply
+  | bad        -- answers with a right-sized reply that the reader refuses
+  | close      -- closes the socket instead of answering
+deriving DecidableEq, Repr
+
 structure Cfg where
   n : Nat
   kind : Nat → Kind
   ackMode : Bool
+  /-- the peer's treatment of each caller's request (only meaningful if the request has a reply) -/
+  fault : Nat → Fault := fun _ => .none
+  /-- MUTATION (not the code): the error path of the reply reader re-acquires the endpoint lock -/
+  relock : Bool := false
 
 def Cfg.sends (c : Cfg) (i : Nat) : Bool :=
   match c.kind i with
@@ -104,8 +138,17 @@ def Cfg.reads (c : Cfg) (i : Nat) : Bool :=
   | .ack => c.ackMode
   | _ => false
 
+/-- the reply to caller `i`'s request is one the reader refuses (bad reply or end-of-file) -/
+def Cfg.faulty (c : Cfg) (i : Nat) : Bool :=
+  c.reads i && (match c.fault i with | .none => false | _ => true)
+
+/-- the peer closes the socket instead of answering caller `i`'s request -/
+def Cfg.closes (c : Cfg) (i : Nat) : Bool :=
+  c.reads i && (match c.fault i with | .close => true | _ => false)
+
+/-- `relock`: only under the mutation `Cfg.relock` — inside the reader's error path, waiting for the lock -/
 inductive PC where
-  | idle | locked | sent | got | done
+  | idle | locked | sent | got | done | relock
 deriving DecidableEq, Repr
 
 def upd {α : Type} (f : Nat → α) (i : Nat) (v : α) : Nat → α := fun j => if j = i then v else f j
@@ -117,8 +160,13 @@ structure St where
   repQ : List Nat
   got : Nat → Option Nat
   trace : List Ev
+  /-- the call returned (or is about to return) an error that is not the content of its own reply:
+  faulty reply, end-of-file, dead socket at send time, local rejection -/
+  err : Nat → Bool := fun _ => false
+  /-- the peer has closed the socket -/
+  closed : Bool := false
 
-def init : St := ⟨fun _ => .idle, none, [], [], fun _ => none, []⟩
+def init : St := { pc := fun _ => .idle, holder := none, reqQ := [], repQ := [], got := fun _ => none, trace := [] }
 
 inductive Lbl where
   | acquire (i : Nat) | send (i : Nat) | peer | recv (i : Nat) | release (i : Nat)
@@ -128,27 +176,36 @@ def step (c : Cfg) (s : St) : Lbl → Option St
   | .acquire i =>
     if i < c.n ∧ s.pc i = .idle ∧ s.holder = none then
       some { s with pc := upd s.pc i .locked, holder := some i }
+    else if s.pc i = .relock ∧ s.holder = none then        -- only under the mutation `Cfg.relock`
+      some { s with pc := upd s.pc i .got, holder := some i }
     else none
   | .send i =>
-    if s.pc i = .locked ∧ c.sends i = true then
+    if s.pc i = .locked ∧ c.sends i = true ∧ s.closed = false then
       some { s with pc := upd s.pc i .sent, reqQ := s.reqQ ++ [i], trace := s.trace ++ [Ev.req i] }
     else none
   | .peer =>
     match s.reqQ with
     | [] => none
-    | r :: q => some { s with reqQ := q, repQ := if c.reads r then s.repQ ++ [r] else s.repQ }
+    | r :: q => some { s with reqQ := q, repQ := if c.reads r then s.repQ ++ [r] else s.repQ,
+                              closed := s.closed || c.closes r }
   | .recv i =>
     if s.pc i = .sent ∧ c.reads i = true then
       match s.repQ with
       | [] => none
       | t :: w =>
-        some { s with pc := upd s.pc i .got, repQ := w, got := upd s.got i (some t),
+        -- a faulty reply (or end-of-file) is consumed like any other; the reader returns an error
+        -- instead of the value and the method goes on to drop its guard
+        some { s with pc := upd s.pc i (if c.faulty i && c.relock then .relock else .got), repQ := w,
+                      got := if c.faulty i then s.got else upd s.got i (some t),
+                      err := if c.faulty i then upd s.err i true else s.err,
                       trace := s.trace ++ [Ev.rep i t] }
     else none
   | .release i =>
     if s.holder = some i ∧
-        (s.pc i = .got ∨ (s.pc i = .sent ∧ c.reads i = false) ∨ (s.pc i = .locked ∧ c.sends i = false)) then
-      some { s with pc := upd s.pc i .done, holder := none }
+        (s.pc i = .got ∨ (s.pc i = .sent ∧ c.reads i = false) ∨
+         (s.pc i = .locked ∧ (c.sends i = false ∨ s.closed = true))) then
+      some { s with pc := upd s.pc i .done, holder := none,
+                    err := if s.pc i = .locked then upd s.err i true else s.err }
     else none
 
 def run (c : Cfg) : St → List Lbl → Option St
@@ -162,6 +219,13 @@ def run (c : Cfg) : St → List Lbl → Option St
 has not been consumed yet (replies already on the wire, then requests the peer has not processed). -/
 def outstanding (c : Cfg) (s : St) : List Nat := s.repQ ++ s.reqQ.filter c.reads
 
+/-- how the call of caller `i` ended, in the terms of `Spec.Locks` (a call that reads no reply and returned
+without an error counts as having what its own request entitles it to) -/
+def outcome (s : St) (i : Nat) : Spec.Locks.Outcome :=
+  if s.pc i = .done then
+    (if s.err i then .error else match s.got i with | some t => .value t | none => .value i)
+  else .pending
+
 /-- all labels that mention callers `< n` -/
 def allLabels : Nat → List Lbl
   | 0 => [.peer]
@@ -172,7 +236,7 @@ def enabled (c : Cfg) (s : St) : List Lbl := (allLabels c.n).filter fun l => (st
 /-! ### progress measure: remaining steps -/
 
 def rem : PC → Nat
-  | .idle => 8 | .locked => 6 | .sent => 4 | .got => 2 | .done => 0
+  | .idle => 8 | .locked => 6 | .sent => 4 | .relock => 3 | .got => 2 | .done => 0
 
 def total (f : Nat → Nat) : Nat → Nat
   | 0 => 0
